@@ -224,12 +224,15 @@ class LDAWrapper(LinearSolver):
                 # Remove all previous components that are already in the database (orthogonalize)
                 xadd = xnew[isel, i]
                 badd = (A @ xnew[..., i])[isel, ...]
+                bnrm0 = np.linalg.norm(badd)
                 for x, b in zip(x_data, b_data):
                     beta = badd @ b.conj() / (b.conj() @ b)
                     badd = badd - beta * b
                     xadd = xadd - beta * x
                 bnrm = np.linalg.norm(badd)
-                if not np.isfinite(bnrm) or bnrm == 0:
+                if not np.isfinite(bnrm) or bnrm <= self.tol * bnrm0:
+                    # (Nearly) linearly dependent on the stored vectors: normalizing the round-off remainder would add
+                    # an inconsistent pair to the database
                     continue
                 badd /= bnrm
                 xadd /= bnrm
